@@ -124,6 +124,14 @@ def _signed_distance_key(key: ast.AST, bases: Set[str]) -> bool:
     if not isinstance(key, ast.Lambda) or len(key.args.args) != 1:
         return False
     p = key.args.args[0].arg
+
+    class _Fold(ast.NodeTransformer):
+        def visit_BinOp(self, node):
+            self.generic_visit(node)
+            v = try_fold(node)
+            return ast.copy_location(ast.Constant(v), node) if isinstance(v, int) else node
+    import copy
+    key = _Fold().visit(copy.deepcopy(ast.fix_missing_locations(ast.parse(src(key, 2000), mode="eval").body)))
     for n in ast.walk(key.body):
         if isinstance(n, ast.BinOp) and ((isinstance(n.op, ast.Mod) and try_fold(n.right) == 1 << 32) or (isinstance(n.op, ast.BitAnd) and try_fold(n.right) == 0xFFFFFFFF)):
             for b in bases:
